@@ -31,9 +31,13 @@ Not proved (measured by the correspondence on every run): the double nearest to 
 -/
 import Midgard.Proofs.Writers
 import Midgard.Proofs.WriterNumbers
+import Midgard.Proofs.WriterFilesCrd
+import Midgard.Proofs.WriterFilesClu
+import Midgard.Generated.WriterEffects
 
 namespace Midgard.Props.C17
 open Midgard.Text Midgard.FixedCol Midgard.WriterCells Midgard.Writers Midgard.Generated.WriterLayouts
+open Midgard.WriterFiles
 
 /-- **Every field inside its columns.**  For any line layout and any values that are of the right
 kind and no wider than their cells: the line renders, has exactly the nominal width, and the text
@@ -206,6 +210,85 @@ theorem sta_writer_parser_aligned_partial :
      fieldReads row "up" true 9 (f "eccentricity_up").1 (f "eccentricity_up").2) = true := by
   decide +kernel
 
+/-! ### whole files: `parse (write x) = round_p x` -/
+
+/-- **A file of fixed-width lines is read back cell by cell** — for *every* `np.genfromtxt` parser with a `delimiter`
+tuple and *every* writer line whose segments (a cell with the blanks written before it) have the parser's widths
+(`lineMatches`, decided on the regenerated tables), every header of exactly `skip_header` lines, any number of lines and
+all values within `valsOk` (right kind, no wider than the cell, no outer blanks, no comment marker or line break): the
+writer does not raise, and the parser's rows (text-mode reading, line iteration, header skipping, comment cutting, column
+cutting, stripping, `float` / `U<n>` conversion) are the written values as the converters read them (`expectField`:
+numbers rounded to the printed decimals, integers exactly, NaN as NaN, text cut to the declared length). -/
+theorem gft_file_roundtrip (sp : GftSpec) (cells : List Cell) (hm : lineMatches sp cells = true) (hdr : Str)
+    (hh : headerOk sp hdr = true) (rowsVals : List (List Value))
+    (hv : ∀ vals ∈ rowsVals, valsOk sp cells vals = true) :
+    ∃ lines, rowsVals.mapM (renderCells cells) = some lines ∧
+      gftParse sp (hdr ++ lines.flatten) =
+        rowsVals.map fun vals => List.zipWith expectField sp.dtypes (cellValues cells vals) :=
+  gft_file sp cells hm hdr hh rowsVals hv
+
+/-- the Bernese CRD line (regenerated from writers/bernese_crd.py) is cut by the `delimiter` tuple of
+parsers/bernese_crd.py (regenerated too) into exactly one cell per column, with only blanks around -/
+theorem crd_line_matches_parser : lineMatches crdSpec (rowOf "bernese_crd") = true := crd_lineMatches
+
+/-- the CRD line the round-trip theorem is proved for is the one the source has now -/
+theorem crd_layout_is : rowOf "bernese_crd" =
+    [.fld "number" ⟨some .right, 3, none, .any⟩, .lit "  ", .fld "station" ⟨none, 4, none, .any⟩, .lit " ",
+     .fld "domes" ⟨none, 9, none, .any⟩, .lit " ", .fld "x" ⟨none, 16, some 5, .fix⟩, .lit " ",
+     .fld "y" ⟨none, 14, some 5, .fix⟩, .lit " ", .fld "z" ⟨none, 14, some 5, .fix⟩, .lit " ",
+     .fld "flag" ⟨some .right, 4, none, .any⟩, .lit "\n"] := crd_row_is
+
+/-- **Bernese CRD, file level: `bernese_crd parser (bernese_crd writer x) = round₅ x`.**  For all header texts, all
+station lists and both settings of `write_nan_site_coord` within `crdInRange` (decidable; evaluated by the driver on every
+generated case): the writer produces a file, and parsers/bernese_crd.py (`np.genfromtxt` with its regenerated
+parameters, then `_remove_blank_entries`) holds exactly one record per written station, in the written order: the running
+number, the upper-case station code, the DOMES number, the three coordinates as `float` reads them (`readBack 5`: the
+value rounded to 5 decimals, NaN for NaN) and the flag `A`. -/
+theorem crd_file_roundtrip (texts : List Str) (writeNan : Bool) (sts : List Station)
+    (h : crdInRange texts writeNan sts = true) :
+    ∃ file, crdFile texts writeNan sts = some file ∧ crdParse file = (xyzEntries writeNan sts).map crdRecord :=
+  crd_file_roundtrip_aux texts writeNan sts h
+
+/-- the CLU line the round-trip theorem is proved for is the one the source has now -/
+theorem clu_layout_is : rowOf "bernese_clu" =
+    [.fld "station" ⟨none, 4, none, .any⟩, .lit " ", .fld "cluster" ⟨none, 16, none, .any⟩, .lit "\n"] := clu_row_is
+
+/-- **Bernese CLU, file level: `bernese_clu parser (bernese_clu writer x) = x`.**  For all header texts and all lists of
+station codes within `cluInRange` (the header has the 5 lines the parser skips; each code has at most 4 characters in
+upper case, is not empty, has no outer blanks, `#` or line break): the writer produces a file and the parser's rows
+(`np.genfromtxt` with the regenerated `delimiter=(4, 10, 7)`, `dtype=(U4, U9, f8)`, then the rows `as_dict` keeps) are,
+in code-point order of the codes, the upper-case code, an empty DOMES text and cluster 1.0 — although the writer's
+16-column cluster cell straddles the parser's `domes` and `cluster` columns. -/
+theorem clu_file_roundtrip (texts : List Str) (keys : List Str) (h : cluInRange texts keys = true) :
+    ∃ file, cluFile texts keys = some file ∧ cluParse file = (sortBy strLe keys).map cluRecord :=
+  clu_file_roundtrip_aux texts keys h
+
+/-- **`readBack p` is rounding to `p` decimals**: within half a unit of the last printed digit, and the value itself
+when it has no more than `p` decimals -/
+theorem readback_is_rounding (p : Nat) (q : Rat) :
+    ∃ v, readBack p (.num q) = some v ∧ |v - q| ≤ 1 / 2 / Decimal.pow10 p ∧
+      ∀ z : Int, q * Decimal.pow10 p = (z : Rat) → v = q :=
+  ⟨_, rfl, Decimal.fixedValue_close q p, fun z hz => Decimal.fixedValue_exact q p z hz⟩
+
+/-! ### the writers do not alter what they are given -/
+
+/-- **No writer assigns to, deletes from or calls a mutating method on an object reachable from its arguments or
+from a module-level table** — the table is regenerated on every run by a flow-sensitive `ast` taint analysis of the ten
+writer modules (translator/extract_writer_effects.py: arguments of the registered function and module-level containers
+as roots; aliases, loop variables, `self` attributes and calls inside the module followed; copies are clean).  Soundness
+of the analysis is trusted and validated dynamically (every argument and module-level container is digested before and
+after every writer call of the correspondence). -/
+theorem writers_assign_nothing_on_inputs : Midgard.Generated.WriterEffects.writerEffects = [] := by
+  decide +kernel
+
+/-- the analysis had something to look at: each of the ten writers has a registered function, and its dataset or site
+information argument is a root -/
+theorem writer_effect_roots_cover :
+    (["bernese_abb", "bernese_clu", "bernese_crd", "bernese_sta", "bernese_vel", "csv_", "gamit_apr_eq",
+      "gamit_station_info", "gipsyx_site_info", "sinex_tms"].all fun w =>
+        Midgard.Generated.WriterEffects.writerRoots.any fun r => r.1 = w && (r.2 = "arg:site_info" || r.2 = "arg:dset")) = true := by
+  decide +kernel
+
 /-! ### SINEX TMS -/
 
 /-- every combination of optional blocks gives balanced, un-nested `+BLOCK … -BLOCK` markers -/
@@ -252,6 +335,16 @@ example : allFit (rowOf "bernese_crd")
     [.int 1, .str "ADAC".toList, .str "10337M001".toList, .num (191624041921 / 100000),
      .num (-999999999999 / 100000), .num 0, .str ['A']] = true := by decide +kernel
 
+/-- the range of the CRD round trip is inhabited: header texts as the writer builds them, three stations (one without
+coordinates, one NaN, full-width values, empty and 9-character DOMES) -/
+example : crdInRange ["NMA solution 20260930".toList, "30-SEP-26 02:09".toList, "IGb14".toList, "2010-01-01 00:00:00".toList] true
+    [⟨"adac".toList, some (.num (191624041921 / 100000), .num (-999999999999 / 100000), .num 0), some "10337M001".toList, none⟩,
+     ⟨"zimm".toList, some (.nan, .negz, .num (1 / 3)), none, none⟩,
+     ⟨"0abi".toList, none, some [], none⟩] = true := by decide +kernel
+
+example : cluInRange ["NMA solution".toList, "30-SEP-26 02:09".toList] ["zimm".toList, "0abi".toList, "ab".toList] = true := by
+  decide +kernel
+
 end Midgard.Props.C17
 
 #print axioms Midgard.Props.C17.fields_in_columns
@@ -271,6 +364,15 @@ end Midgard.Props.C17
 #print axioms Midgard.Props.C17.clu_writer_parser_aligned
 #print axioms Midgard.Props.C17.tms_ref_coordinate_aligned
 #print axioms Midgard.Props.C17.sta_writer_parser_aligned_partial
+#print axioms Midgard.Props.C17.gft_file_roundtrip
+#print axioms Midgard.Props.C17.crd_line_matches_parser
+#print axioms Midgard.Props.C17.crd_layout_is
+#print axioms Midgard.Props.C17.crd_file_roundtrip
+#print axioms Midgard.Props.C17.readback_is_rounding
+#print axioms Midgard.Props.C17.clu_layout_is
+#print axioms Midgard.Props.C17.clu_file_roundtrip
+#print axioms Midgard.Props.C17.writers_assign_nothing_on_inputs
+#print axioms Midgard.Props.C17.writer_effect_roots_cover
 #print axioms Midgard.Props.C17.blocks_balanced
 #print axioms Midgard.Props.C17.tms_columns_have_types
 #print axioms Midgard.Props.C17.data_types_modelled
